@@ -806,3 +806,213 @@ Section RoundTrip.
     unfold known_F34 in Hk34. apply negb_false_iff in Hk34. exact Hk34.
   Qed.
 End RoundTrip.
+
+(* ---- (3) the key files a load reads or creates: those in force, in the loaded tree, at the secrets
+        that came out set ---- *)
+Section LoadTrace.
+  Variable aes : bool.
+  Variable dec : smethod -> bytes -> bytes -> option str.
+  Variable unb64 : str -> option bytes.
+  Variable newkey : path -> bytes.
+  Variable fs : list (path * bytes).
+  Notation load_node := (load_node aes dec unb64 newkey fs).
+  Notation load_child := (load_child aes dec unb64 newkey fs).
+  Notation load_children := (load_children aes dec unb64 newkey fs).
+  Notation load_items := (load_items aes dec unb64 newkey fs).
+  Notation load_secs := (load_secs aes dec unb64 newkey fs).
+  Notation to_python := (to_python aes dec unb64 newkey fs).
+
+  Lemma to_python_opens : forall cur d v o,
+    to_python cur d = Ok (v, o) -> o = [] \/ (o = [cur] /\ exists p, v = Some p).
+  Proof.
+    intros cur d v o H. unfold Secrets.to_python in H.
+    destruct d as [|s|es|l]; try discriminate; try (inversion H; left; reflexivity).
+    destruct (rget (sa "method") es) as [[|[|c m]|?|?]|]; try discriminate.
+    destruct (rget (sa "ciphertext") es) as [[|b|?|?]|]; try discriminate.
+    destruct (unb64 b) as [ct|]; try discriminate.
+    destruct (mparse (c :: m)) as [m'|]; try discriminate.
+    destruct (dec (concrete aes m') (key_of newkey fs cur) ct) as [p|]; try discriminate.
+    inversion H; subst. right. split; [reflexivity|]. exists p. reflexivity.
+  Qed.
+
+  Lemma load_secs_trace : forall keep cur es secs out ops,
+    load_secs keep cur es secs = Ok (out, ops) -> incl ops (sel_secs sec_set cur out).
+  Proof.
+    induction secs as [|[nm s] r IH]; intros out ops H; cbn [Secrets.load_secs] in H.
+    - inversion H; subst. apply incl_refl.
+    - destruct (rget nm es) as [d|].
+      + destruct (to_python cur d) as [[v o]| |] eqn:Et; cbn [bind fst snd] in H; try discriminate.
+        destruct (load_secs keep cur es r) as [[out' ops']| |] eqn:El; cbn [bind fst snd] in H; try discriminate.
+        inversion H; subst. cbn [sel_secs]. apply incl_app_app; [|exact (IH _ _ eq_refl)].
+        destruct (to_python_opens _ _ _ _ Et) as [->|[-> [p ->]]]; [intros ? []|].
+        unfold sec_set, set_val. cbn [s_val is_some]. apply incl_refl.
+      + cbn [bind fst snd] in H.
+        destruct (load_secs keep cur es r) as [[out' ops']| |] eqn:El; cbn [bind fst snd] in H; try discriminate.
+        inversion H; subst. cbn [sel_secs app]. apply incl_appr. exact (IH _ _ eq_refl).
+  Qed.
+
+  Definition LT (tg : snode) : Prop :=
+    forall inh own keep doc t' ops, load_node inh own keep tg doc = Ok (t', ops) ->
+    own_of t' = own /\ incl ops (sel_kfs sec_set inh t').
+  Definition LTc (c : child) : Prop :=
+    forall cur doc c' ops, load_child cur c doc = Ok (c', ops) -> incl ops (sel_kfs_child sec_set cur c').
+
+  Lemma load_children_trace : forall keep cur es ch,
+    Forall (fun nc => LTc (snd nc)) ch ->
+    forall out ops, load_children keep cur es ch = Ok (out, ops) -> incl ops (sel_kfs_children sec_set cur out).
+  Proof.
+    intros keep cur es ch HF. induction HF as [|[nm c] r Hc _ IH]; intros out ops H; cbn [Secrets.load_children] in H.
+    - inversion H; subst. apply incl_refl.
+    - cbn [snd] in Hc. unfold load_slot in H.
+      destruct (rget nm es) as [d|].
+      + destruct (load_child cur c d) as [[c' o]| |] eqn:Ec; cbn [bind fst snd] in H; try discriminate.
+        destruct (load_children keep cur es r) as [[out' ops']| |] eqn:El; cbn [bind fst snd] in H; try discriminate.
+        inversion H; subst. cbn [sel_kfs_children]. apply incl_app_app; [exact (Hc _ _ _ _ Ec)|exact (IH _ _ eq_refl)].
+      + cbn [bind fst snd] in H.
+        destruct (load_children keep cur es r) as [[out' ops']| |] eqn:El; cbn [bind fst snd] in H; try discriminate.
+        inversion H; subst. cbn [sel_kfs_children app]. apply incl_appr. exact (IH _ _ eq_refl).
+  Qed.
+
+  Lemma load_items_trace : forall cur proto, LT proto ->
+    forall ds out ops, load_items cur proto ds = Ok (out, ops) -> incl ops (sel_kfs_items sec_set cur out).
+  Proof.
+    intros cur proto HP. induction ds as [|d r IH]; intros out ops H; cbn [Secrets.load_items] in H.
+    - inversion H; subst. apply incl_refl.
+    - destruct (load_node cur (ct_of proto) false proto d) as [[a o]| |] eqn:Ea; cbn [bind fst snd] in H; try discriminate.
+      destruct (load_items cur proto r) as [[out' ops']| |] eqn:El; cbn [bind fst snd] in H; try discriminate.
+      inversion H; subst. cbn [sel_kfs_items]. apply incl_app_app; [|exact (IH _ _ eq_refl)].
+      exact (proj2 (HP _ _ _ _ _ _ Ea)).
+  Qed.
+
+  Lemma load_trace_node : forall tg, LT tg.
+  Proof.
+    apply (snode_ind2 LT LTc).
+    - intros c o secs ch IH inh own keep doc t' ops H.
+      destruct doc as [|?|es|?]; try discriminate. rewrite load_node_eq in H.
+      destruct (load_secs keep (resolve inh own) es secs) as [[so sops]| |] eqn:Es; cbn [bind fst snd] in H; try discriminate.
+      destruct (load_children keep (resolve inh own) es ch) as [[co cops]| |] eqn:Ec; cbn [bind fst snd] in H; try discriminate.
+      inversion H; subst. split; [reflexivity|]. rewrite sel_node.
+      apply incl_app_app; [exact (load_secs_trace _ _ _ _ _ _ Es)|exact (load_children_trace _ _ _ _ IH _ _ Ec)].
+    - intros n IH cur doc c' ops H. destruct doc as [|?|es|?]; try discriminate.
+      rewrite load_sub_eq in H.
+      destruct (load_node cur (ct_of n) false n (RMap es)) as [[a o]| |] eqn:Ea; cbn [bind fst snd] in H; try discriminate.
+      inversion H; subst. exact (proj2 (IH _ _ _ _ _ _ Ea)).
+    - intros proto items HP _ cur doc c' ops H. destruct doc as [|?|?|ds]; try discriminate.
+      + inversion H; subst. intros ? [].
+      + rewrite load_list_eq in H.
+        destruct (load_items cur proto ds) as [[out o]| |] eqn:El; cbn [bind fst snd] in H; try discriminate.
+        inversion H; subst. rewrite sel_list. exact (load_items_trace cur proto HP _ _ _ El).
+  Qed.
+
+  Lemma kf_trace_load : forall tg doc t' ops p,
+    load_tree aes dec unb64 newkey fs tg doc = Ok (t', ops) -> wf t' -> In p ops ->
+    exists pos nd name s, node_at t' pos = Some nd /\ In (name, s) (secs_of nd) /\
+                          s_val s <> None /\ kf_spec t' pos = Some p.
+  Proof.
+    intros tg doc t' ops p H Hw Hp. unfold load_tree in H.
+    destruct (load_trace_node tg _ _ _ _ _ _ H) as [_ Hi].
+    apply (sel_kfs_pos sec_set t' kf_default p Hw) in Hi; [|exact Hp]. 
+    destruct Hi as [pos [nd [name [s [H1 [H2 [H3 H4]]]]]]]. exists pos, nd, name, s.
+    rewrite <- kf_resolution. repeat split; try assumption.
+    unfold sec_set in H3. destruct (s_val s); [discriminate|discriminate H3].
+  Qed.
+
+  (* a null in the document (what an empty secret is saved as) loads as "unset", opening nothing *)
+  Lemma null_unset : forall cur, to_python cur RNull = Ok (None, []).
+  Proof. reflexivity. Qed.
+End LoadTrace.
+
+(* ---- new session: the load happens on the file system the dump left behind ---- *)
+Lemma secret_roundtrip_new_session :
+  forall aes enc dec b64 unb64 newkey fs0,
+  (forall m k iv p, m <> SBest -> dec m k (enc m k iv p) = Some p) ->
+  (forall x, unb64 (b64 x) = Some x) ->
+  forall t tg,
+  wf t -> known_F34 t = false -> fresh tg = fresh t -> own_of tg = own_of t ->
+  let fs1 := fs_after newkey fs0 (to_tree_opens aes enc b64 newkey fs0 t) in
+  exists t', load_tree aes dec unb64 newkey fs1 tg (to_tree aes enc b64 newkey fs0 t) =
+             Ok (t', to_tree_opens aes enc b64 newkey fs0 t) /\
+             plain t' = plain t.
+Proof.
+  intros aes enc dec b64 unb64 newkey fs0 Hdec Hb64 t tg Hw Hk Hf Ho fs1.
+  apply (secret_roundtrip_partial aes enc dec b64 unb64 newkey fs0 fs1 Hdec Hb64); try assumption.
+  intro p. apply key_stable.
+Qed.
+
+(* ---- the toy cipher of the correspondence stream satisfies the assumed laws (so they are satisfiable) ---- *)
+Lemma toy_dec_enc : forall m k iv p, m <> SBest -> toy_dec m k (toy_enc m k iv p) = Some p.
+Proof.
+  intros m k iv p Hm. unfold toy_dec, toy_enc.
+  assert (E1 : firstn (length k) (k ++ p) = k).
+  { rewrite firstn_app, Nat.sub_diag, firstn_all. cbn. apply app_nil_r. }
+  assert (E2 : skipn (length k) (k ++ p) = p).
+  { rewrite skipn_app, Nat.sub_diag, skipn_all. reflexivity. }
+  rewrite E1, E2. change (bytes_eqb k k) with (str_eqb k k). rewrite str_eqb_refl.
+  destruct m; [cbn; rewrite N.eqb_refl; reflexivity|cbn; rewrite N.eqb_refl; reflexivity|contradiction].
+Qed.
+Lemma toy_unb64_b64 : forall x, toy_unb64 (toy_b64 x) = Some x.
+Proof. reflexivity. Qed.
+
+(* ---- F34 (open finding): a key file named on a sub-configuration is used by the dump, but the load
+        replaces the sub-configuration by a new object that no longer names it ---- *)
+Definition f34_tree : snode :=
+  SNode None (Some 1%N) [(sa "pw", {| s_method := SBest; s_val := None; s_iv := [] |})]
+        [(sa "sub", CSub (SNode None (Some 2%N)
+                                [(sa "pw", {| s_method := SXor; s_val := Some (sa "hunter22"); s_iv := [] |})] []))].
+
+Lemma f34_wf : wf f34_tree.
+Proof.
+  cbn. repeat split; repeat constructor; cbn; try tauto.
+  intros [H|[]]. discriminate H.
+Qed.
+
+(* even when the target configuration names exactly the same key files as the saved one (here: it IS
+   the saved one), the document does not load; the key files exist beforehand *)
+Lemma secret_roundtrip_refuted :
+  exists aes enc dec b64 unb64 newkey fs t tg,
+    (forall m k iv p, m <> SBest -> dec m k (enc m k iv p) = Some p) /\
+    (forall x, unb64 (b64 x) = Some x) /\
+    wf t /\ fresh tg = fresh t /\ own_of tg = own_of t /\ known_F34 t = true /\
+    ~ exists t' ops, load_tree aes dec unb64 newkey fs tg (to_tree aes enc b64 newkey fs t) = Ok (t', ops) /\
+                     plain t' = plain t.
+Proof.
+  exists true, toy_enc, toy_dec, toy_b64, toy_unb64, toy_key, [(1%N, [1%N]); (2%N, [2%N])], f34_tree, f34_tree.
+  split; [exact toy_dec_enc|]. split; [exact toy_unb64_b64|]. split; [exact f34_wf|].
+  split; [reflexivity|]. split; [reflexivity|]. split; [reflexivity|].
+  intros [t' [ops [H _]]]. vm_compute in H. discriminate H.
+Qed.
+
+(* the hypotheses of secret_roundtrip_partial are satisfiable together, on a tree with a nested
+   secret, a config type with its own key file and a list item *)
+Definition ok_tree : snode :=
+  SNode None (Some 1%N) [(sa "pw", {| s_method := SBest; s_val := Some (sa "rootpw"); s_iv := [] |})]
+        [(sa "sub", CSub (SNode None None
+                                [(sa "pw", {| s_method := SXor; s_val := Some (sa "hunter22"); s_iv := [] |})] []));
+         (sa "ct", CSub (SNode (Some 2%N) (Some 2%N)
+                               [(sa "tok", {| s_method := SAes; s_val := Some [] ; s_iv := [] |})] []));
+         (sa "items", CList (SNode None None [(sa "tok", {| s_method := SAes; s_val := None; s_iv := [] |})] [])
+                            [SNode None None [(sa "tok", {| s_method := SAes; s_val := Some (sa "item-0"); s_iv := [] |})] []])].
+Example roundtrip_hyps_sat :
+  wf ok_tree /\ known_F34 ok_tree = false /\
+  fresh (set_own (Some 1%N) (fresh ok_tree)) = fresh ok_tree /\
+  own_of (set_own (Some 1%N) (fresh ok_tree)) = own_of ok_tree /\
+  (forall m k iv p, m <> SBest -> toy_dec m k (toy_enc m k iv p) = Some p) /\
+  (forall x, toy_unb64 (toy_b64 x) = Some x) /\
+  (forall p, key_of toy_key (fs_after toy_key [] (to_tree_opens true toy_enc toy_b64 toy_key [] ok_tree)) p
+             = key_of toy_key [] p).
+Proof.
+  split.
+  { cbn. repeat split; repeat constructor; cbn; try tauto; intuition discriminate. }
+  split; [reflexivity|]. split; [reflexivity|]. split; [reflexivity|].
+  split; [exact toy_dec_enc|]. split; [exact toy_unb64_b64|]. intro p. apply key_stable.
+Qed.
+Example leaf_hyps_sat :
+  wf ok_tree /\
+  secret_at ok_tree [StItem (sa "items") 0] (sa "tok")
+    = Some {| s_method := SAes; s_val := Some (sa "item-0"); s_iv := [] |} /\
+  kf_spec ok_tree [StItem (sa "items") 0] = Some 1%N /\
+  kf_spec ok_tree [StSub (sa "ct")] = Some 2%N.
+Proof.
+  split; [|repeat split; reflexivity].
+  cbn. repeat split; repeat constructor; cbn; try tauto; intuition discriminate.
+Qed.
